@@ -1,27 +1,529 @@
-"""C16 -- runs terminate with well-formed results and never hide a failed step (path rules on run_sim / solve)."""
+"""C16 -- runs terminate with well-formed results and never hide a failed step (path rules on run_sim / solve).
+
+The rules are stated over ROLES, not over the text of today's source:
+
+* a statement CFG (sa/cfg.py) is enriched with reaching definitions (class Flow below).  Every expression a rule looks at is
+  first *resolved*: a local name with one reaching, call-free definition whose inputs are not rewritten in between is replaced
+  by that definition (`t = self._wn.sim_time ... int(t)` reads `int(self._wn.sim_time)`); names with several definitions or
+  call results are followed to their *origins* (`solver_status` -> element 0 of `_solver_helper(...)`), through copies, tuple
+  packing/unpacking and conditional expressions.
+* a branch test is never matched as text: either it is evaluated on the finite set of values its role can take (solver status
+  0/1, trial counter far below / far above the bound, convergence_error False/True; sa/peval.py) which yields the OUTCOME edge on
+  which the fact holds, or it is decomposed into the literals each outcome implies (`not`, and/or, ==/!=, </>=, `x == False`),
+  so `if a != 0: return` and `if a == 0: ...` guard the same edge.  Path obligations are then reachability questions on the CFG
+  with those edges cut.
+* the objects are found by role: the results object is what run_sim returns, the clock is what is advanced by the hydraulic
+  timestep attribute that _setup_sim_options fills from options.time.hydraulic_timestep, the status / message / count variables
+  are whatever receives the elements of _solver_helper's triple, the tables of hydraulics.py are the positional parameters.
+"""
 import ast
+import copy
 import re
 
-from ..src import walk, calls, call_name, dotted, const, loc, unparse, norm, AnchorError, ExtractError, last_attr
+import networkx as nx
+import sympy as sp
+
+from ..src import walk, calls, call_name, dotted, const, loc, unparse, norm, AnchorError, ExtractError, last_attr, str_consts
 from ..cfg import CFG
 from ..symx import SymExec, Opaque
+from ..peval import Evaluator, Unknown
 
 CORE = "wntr/sim/core.py"
 SOLV = "wntr/sim/solvers.py"
 HYD = "wntr/sim/hydraulics.py"
 OPT = "wntr/network/options.py"
+RES = "wntr/sim/results.py"
 
 EXPLANATION = (
-    "Path rules on a hand-built statement CFG of WNTRSimulator.run_sim, NewtonSolver.solve and _solver_helper: every path from a solver call to "
-    "store_results_in_network passes the pure failure test `solver_status == 0`; from the failure (and trial-limit) branch every exit either "
-    "raises (only under convergence_error) or passes warnings.warn and `results.error_code = ResultsStatus.error` and leaves the loop, never "
-    "reaching store/save/append; error_code is None otherwise; every solve exit returns a (SolverStatus, message, count) triple, `converged` only "
-    "under the tolerance test; loops are range-bounded; each save_results is followed by exactly one results.time.append (or a raise) guarded by "
-    "the duplicate-time test; result families and keys of initialize_results_dict / save_results / get_results coincide and each family appends "
-    "once per key per call; the accepted path advances sim_time by the (>= 1) hydraulic timestep before the duration test, the re-solve path "
-    "increments the bounded trial counter. Decides control-flow discipline, not finiteness of numbers.")
-RULE_TEXT = "one instance = one path obligation (source node, target set, required via set) or one family/key table entry"
-ASSUMPTIONS = ["only explicit raise statements and try/except edges are modelled as exceptional flow", "termination when back-tracking keeps producing new partial steps is not decided"]
+    "Path rules on a hand-built statement CFG of WNTRSimulator.run_sim, NewtonSolver.solve and _solver_helper, with reaching definitions so that "
+    "variables are identified by what flows into them: every path from a solver call to store_results_in_network passes a test that is decided by "
+    "the status of that solve alone; from the failure (and trial-limit) edge every exit either raises (only, and always, under convergence_error) or "
+    "passes warnings.warn and `results.error_code = ResultsStatus.error` and leaves the loop, never reaching store/save/append; error_code is None "
+    "otherwise; every value solve/_solver_helper can return is a (SolverStatus, message, count) triple, `converged` only behind the tolerance test "
+    "(resp. fsolve's ier == 1), an exception in a scipy solver gives `error`; loops are range-bounded; each save_results is followed by exactly one "
+    "results.time.append of int(clock) (or a raise) guarded by the duplicate-time test; result families and keys of initialize_results_dict / "
+    "save_results / get_results coincide and each family appends once per key per call; the accepted path advances the clock by the (>= 1) "
+    "hydraulic timestep before the duration test, the re-solve path increments the bounded trial counter. Decides control-flow discipline, not "
+    "finiteness of numbers.")
+RULE_TEXT = "one instance = one path obligation (source node, target set, required via set / cut edges) or one family/key table entry"
+ASSUMPTIONS = ["only explicit raise statements and try/except edges are modelled as exceptional flow", "termination when back-tracking keeps producing new partial steps is not decided",
+               "a local alias of an attribute chain is assumed to keep its value across calls (only explicit stores between definition and use invalidate it)"]
+
+
+# ===================================================================================================== data flow on the CFG
+PURE_CALLS = {"int", "float", "len", "str", "bool", "abs", "min", "max", "isinstance", "round", "tuple", "list", "repr"}
+_COMPS = (ast.ListComp, ast.SetComp, ast.GeneratorExp, ast.DictComp)
+
+
+def _target_names(t):
+    if isinstance(t, ast.Name):
+        return [t.id]
+    if isinstance(t, (ast.Tuple, ast.List)):
+        return [n for e in t.elts for n in _target_names(e)]
+    if isinstance(t, ast.Starred):
+        return _target_names(t.value)
+    return []
+
+
+class Leaf(object):
+    """one origin of a value: kind in expr / param / unbound / opaque (loop target, augmented assignment, import...)."""
+    __slots__ = ("kind", "ast", "node", "name")
+
+    def __init__(self, kind, a, node, name=None):
+        self.kind, self.ast, self.node, self.name = kind, a, node, name
+
+    def text(self):
+        return unparse(self.ast) if self.ast is not None else "<%s %s>" % (self.kind, self.name)
+
+    def __repr__(self):
+        return "Leaf(%s, %s @%s)" % (self.kind, self.text()[:60], self.node)
+
+
+_PARAM, _UNBOUND = "param", "unbound"
+
+
+class Flow(object):
+    """CFG of one function + reaching definitions + def-use resolution."""
+
+    def __init__(self, fn):
+        self.fn = fn
+        self.g = CFG(fn)
+        self.G = self.g.g
+        self.defs = {}      # node -> [(name, value ast | None | _PARAM | _UNBOUND, may)]
+        self.stores = {}    # node -> [dotted text of attribute / subscript-base targets]
+        self._collect()
+        self._reach()
+        self._between = {}
+        self._rcache = {}
+
+    # -------------------------------------------------------------------------------------------- definitions
+    def _bind(self, t, value, out, st):
+        if isinstance(t, ast.Name):
+            out.append((t.id, value, False))
+        elif isinstance(t, (ast.Tuple, ast.List)):
+            if isinstance(value, (ast.Tuple, ast.List)) and len(value.elts) == len(t.elts) and not any(isinstance(e, ast.Starred) for e in list(t.elts) + list(value.elts)):
+                for e, v in zip(t.elts, value.elts):
+                    self._bind(e, v, out, st)
+            else:
+                for i, e in enumerate(t.elts):
+                    if isinstance(e, ast.Starred) or value is None or any(isinstance(x, ast.Starred) for x in t.elts):
+                        self._bind(e.value if isinstance(e, ast.Starred) else e, None, out, st)
+                    else:
+                        self._bind(e, ast.Subscript(value=value, slice=ast.Constant(value=i), ctx=ast.Load()), out, st)
+        elif isinstance(t, ast.Attribute):
+            d = dotted(t)
+            st.append(d if d is not None else "?")
+        elif isinstance(t, ast.Subscript):
+            d = dotted(t.value)
+            st.append(d if d is not None else "?")
+
+    def _collect(self):
+        assigned = set()
+        for i, d in self.G.nodes(data=True):
+            out, st = [], []
+            kind, n = d["kind"], d["node"]
+            if kind == "except":
+                if getattr(n, "name", None):
+                    out.append((n.name, None, False))
+            elif kind == "loophead":
+                s = d.get("stmt")
+                if isinstance(s, ast.For):
+                    tmp = []
+                    self._bind(s.target, None, tmp, st)
+                    out.extend((nm, None, True) for nm, _, _ in tmp)   # zero iterations bind nothing
+            elif kind == "stmt":
+                if n is None:
+                    out.append((d["label"].split(" ", 1)[-1], None, False))
+                elif isinstance(n, ast.Assign):
+                    for t in n.targets:
+                        self._bind(t, n.value, out, st)
+                elif isinstance(n, ast.AnnAssign):
+                    if n.value is not None:
+                        self._bind(n.target, n.value, out, st)
+                elif isinstance(n, ast.AugAssign):
+                    self._bind(n.target, None, out, st)
+                elif isinstance(n, ast.With):
+                    for it in n.items:
+                        if it.optional_vars is not None:
+                            self._bind(it.optional_vars, None, out, st)
+                elif isinstance(n, (ast.Import, ast.ImportFrom)):
+                    for a in n.names:
+                        out.append(((a.asname or a.name).split(".")[0], None, False))
+                elif isinstance(n, ast.Delete):
+                    for t in n.targets:
+                        self._bind(t, None, out, st)
+            for e in self.own_exprs(i):
+                for x in walk(e):
+                    if isinstance(x, ast.NamedExpr):
+                        out.append((x.target.id, None, False))
+            self.defs[i] = out
+            self.stores[i] = st
+            assigned.update(nm for nm, _, _ in out)
+        a = self.fn.args
+        params = [x.arg for x in a.posonlyargs + a.args + a.kwonlyargs] + [x.arg for x in (a.vararg, a.kwarg) if x is not None]
+        self.params = params
+        self.defs[self.g.entry] = [(p, _PARAM, False) for p in params] + [(nm, _UNBOUND, False) for nm in sorted(assigned) if nm not in params]
+        self.locals = assigned | set(params)
+
+    def own_exprs(self, i):
+        """the expressions evaluated AT node i (not the nested blocks of a with statement)."""
+        d = self.G.nodes[i]
+        n = d["node"]
+        if n is None or d["kind"] == "except":
+            return []
+        if isinstance(n, ast.With):
+            return [it.context_expr for it in n.items]
+        return [n]
+
+    def _reach(self):
+        G = self.G
+        gen, kill = {}, {}
+        for i in G.nodes:
+            gen[i] = frozenset((nm, i) for nm, _, _ in self.defs[i])
+            kill[i] = frozenset(nm for nm, _, may in self.defs[i] if not may)
+        self.gen, self.kill = gen, kill
+        self.IN = self.propagate({self.g.entry: frozenset()})
+
+    def _out(self, i, inset):
+        k = self.kill[i]
+        return self.gen[i] | frozenset(d for d in inset if d[0] not in k)
+
+    def propagate(self, seeds):
+        """forward may-analysis from the seed nodes (node -> IN set); only nodes reachable from the seeds get an entry."""
+        G = self.G
+        IN = {i: frozenset(s) for i, s in seeds.items()}
+        work = list(seeds)
+        while work:
+            a = work.pop()
+            out = self._out(a, IN[a])
+            for _, b, d in G.out_edges(a, data=True):
+                contrib = out | IN[a] if d.get("cond") == "exc" else out
+                cur = IN.get(b)
+                new = contrib if cur is None else cur | contrib
+                if cur is None or new != cur:
+                    IN[b] = new
+                    work.append(b)
+        return IN
+
+    def flow_from(self, node):
+        """reaching definitions restricted to the executions that pass `node` (what holds downstream of it)."""
+        return self.propagate({node: self.IN.get(node, frozenset())})
+
+    def flow_from_edge(self, t, outcome):
+        m = {}
+        for b in self.g.succ_on(t, outcome):
+            m[b] = self._out(t, self.IN.get(t, frozenset()))
+        return self.propagate(m) if m else {}
+
+    def reaching(self, name, at, rmap=None):
+        """[(def node, value)] of the definitions of `name` that reach the entry of node `at`."""
+        ins = (rmap or {}).get(at)
+        if ins is None:
+            ins = self.IN.get(at, frozenset())
+        out = []
+        for nm, dn in ins:
+            if nm == name:
+                for n2, v, _ in self.defs[dn]:
+                    if n2 == name:
+                        out.append((dn, v))
+        return sorted(out, key=lambda x: x[0])
+
+    # ---------------------------------------------------------------------------------------------- resolution
+    @staticmethod
+    def pure(e):
+        for x in ast.walk(e):
+            if isinstance(x, ast.Call) and not (isinstance(x.func, ast.Name) and x.func.id in PURE_CALLS):
+                return False
+            if isinstance(x, (ast.Await, ast.Yield, ast.YieldFrom, ast.NamedExpr, ast.Lambda) + _COMPS):
+                return False
+        return True
+
+    @staticmethod
+    def reads(e):
+        """maximal dotted chains and bare names read by e."""
+        out = set()
+
+        def visit(n):
+            d = dotted(n) if isinstance(n, (ast.Attribute, ast.Name)) else None
+            if d is not None:
+                out.add(d)
+                return
+            for c in ast.iter_child_nodes(n):
+                visit(c)
+        visit(e)
+        return out
+
+    def between(self, d, u):
+        """nodes that may execute after definition node d and before use node u without d being executed again."""
+        key = (d, u)
+        if key not in self._between:
+            H = self.G.copy()
+            H.remove_edges_from(list(H.in_edges(d)))
+            after = nx.descendants(H, d)
+            before = nx.ancestors(H, u) if u in H else set()
+            self._between[key] = (after & before) - {d}
+        return self._between[key]
+
+    def stable(self, d, u, value):
+        """no explicit store between d and u rewrites something `value` reads."""
+        rd = self.reads(value)
+        if not rd:
+            return True
+        for n in self.between(d, u):
+            written = list(self.stores[n]) + [nm for nm, _, _ in self.defs[n]]
+            for w in written:
+                if w == "?":
+                    return False
+                for r in rd:
+                    if r == w or r.startswith(w + ".") or w.startswith(r + "."):
+                        return False
+        return True
+
+    def resolve(self, expr, at, rmap=None, depth=0, used=None):
+        """copy of expr with every local name that has ONE reaching, call-free, still valid definition replaced by it."""
+        flow = self
+
+        class T(ast.NodeTransformer):
+            def __init__(self):
+                self.bound = []
+
+            def visit_Name(self, n):
+                if not isinstance(n.ctx, ast.Load) or any(n.id in b for b in self.bound) or depth > 8:
+                    return n
+                ds = flow.reaching(n.id, at, rmap)
+                if len(ds) != 1:
+                    return n
+                dn, v = ds[0]
+                if not isinstance(v, ast.AST) or not flow.pure(v) or not flow.stable(dn, at, v):
+                    return n
+                if used is not None:
+                    used.add(dn)
+                return flow.resolve(v, dn, rmap, depth + 1, used)
+
+            def _comp(self, n):
+                names = set()
+                for gnr in n.generators:
+                    names.update(_target_names(gnr.target))
+                n.generators[0].iter = self.visit(n.generators[0].iter)
+                self.bound.append(names)
+                for k, gnr in enumerate(n.generators):
+                    if k:
+                        gnr.iter = self.visit(gnr.iter)
+                    gnr.ifs = [self.visit(x) for x in gnr.ifs]
+                for f in ("elt", "key", "value"):
+                    if hasattr(n, f):
+                        setattr(n, f, self.visit(getattr(n, f)))
+                self.bound.pop()
+                return n
+            visit_ListComp = visit_SetComp = visit_GeneratorExp = visit_DictComp = _comp
+
+            def visit_Lambda(self, n):
+                a = n.args
+                self.bound.append({x.arg for x in a.posonlyargs + a.args + a.kwonlyargs} | {x.arg for x in (a.vararg, a.kwarg) if x is not None})
+                n.body = self.visit(n.body)
+                self.bound.pop()
+                return n
+        return T().visit(copy.deepcopy(expr))
+
+    def rnode(self, i):
+        """resolved copies of the expressions evaluated at node i."""
+        if i not in self._rcache:
+            self._rcache[i] = [self.resolve(e, i) for e in self.own_exprs(i)]
+        return self._rcache[i]
+
+    def rtext(self, e, at, rmap=None):
+        return unparse(self.resolve(e, at, rmap))
+
+    def origins(self, expr, at, rmap=None, _seen=None):
+        """the leaf expressions whose value may flow into `expr` at node `at` (through copies, packing/unpacking, x if c else y)."""
+        seen = _seen or frozenset()
+        if isinstance(expr, ast.Name) and isinstance(expr.ctx, ast.Load):
+            if expr.id not in self.locals:
+                return [Leaf("expr", expr, at)]
+            ds = self.reaching(expr.id, at, rmap)
+            out = []
+            for dn, v in ds:
+                if v is _PARAM:
+                    out.append(Leaf("param", None, dn, expr.id))
+                elif v is _UNBOUND:
+                    out.append(Leaf("unbound", None, at, expr.id))
+                elif v is None:
+                    out.append(Leaf("opaque", None, dn, expr.id))
+                elif (expr.id, dn) in seen:
+                    continue
+                else:
+                    out.extend(self.origins(v, dn, rmap, seen | {(expr.id, dn)}))
+            return out
+        if isinstance(expr, ast.IfExp):
+            return self.origins(expr.body, at, rmap, seen) + self.origins(expr.orelse, at, rmap, seen)
+        if isinstance(expr, ast.Subscript) and isinstance(const(expr.slice), int) and not isinstance(const(expr.slice), bool):
+            k = const(expr.slice)
+            out = []
+            for lf in self.origins(expr.value, at, rmap, seen):
+                if lf.kind == "expr" and isinstance(lf.ast, (ast.Tuple, ast.List)) and -len(lf.ast.elts) <= k < len(lf.ast.elts):
+                    out.extend(self.origins(lf.ast.elts[k], lf.node, rmap, seen))
+                elif lf.kind == "expr":
+                    out.append(Leaf("expr", ast.Subscript(value=lf.ast, slice=ast.Constant(value=k), ctx=ast.Load()), lf.node))
+                else:
+                    out.append(lf)
+            return out
+        return [Leaf("expr", expr, at)]
+
+    # ------------------------------------------------------------------------------------------------- queries
+    def own_calls(self, i):
+        out = []
+        for e in self.own_exprs(i):
+            out.extend(c for c in walk(e) if isinstance(c, ast.Call))
+        return out
+
+    def call_target(self, c, at):
+        """dotted name of the callee with local aliases of the receiver / function resolved."""
+        d = dotted(self.resolve(c.func, at))
+        return d if d is not None else (call_name(c) or "")
+
+    def calling(self, suffix):
+        out = []
+        for i in sorted(self.G.nodes):
+            for c in self.own_calls(i):
+                nm = self.call_target(c, i)
+                if nm == suffix or nm.endswith("." + suffix):
+                    out.append(i)
+                    break
+        return out
+
+    def tests(self):
+        return [i for i, d in sorted(self.G.nodes(data=True)) if d["kind"] == "test"]
+
+    def rtest(self, i):
+        return self.rnode(i)[0]
+
+    def implied(self, i, outcome):
+        return literals(self.rtest(i), outcome)
+
+    def edges_implying(self, pred):
+        """[(test node, outcome)] of the branch edges on which a literal satisfying pred is known to hold."""
+        out = []
+        for t in self.tests():
+            for o in (True, False):
+                if any(pred(l) for l in self.implied(t, o)):
+                    out.append((t, o))
+        return out
+
+    def cut(self, edges, drop_back=False):
+        g = self.g.view(drop_back=drop_back)
+        for t, o in edges:
+            g.remove_edges_from([(t, b) for b in self.g.succ_on(t, o)])
+        return g
+
+    def only_behind(self, node, edges, src=None):
+        """every path from src (default: entry) to node runs through one of the edges."""
+        g = self.cut(edges)
+        src = self.g.entry if src is None else src
+        return not (node in g and src in g and nx.has_path(g, src, node))
+
+    def line(self, i):
+        return self.G.nodes[i]["line"]
+
+
+# ---------------------------------------------------------------------------------------------------- literals of a test
+class Lit(object):
+    """kind: eq (a == b, sides sorted by text) / gt (a > b) / is / in / truth (a is true); sign False negates."""
+    __slots__ = ("kind", "a", "b", "sign", "xa", "xb")
+
+    def __init__(self, kind, xa, xb, sign):
+        self.kind, self.xa, self.xb, self.sign = kind, xa, xb, sign
+        self.a = unparse(xa)
+        self.b = unparse(xb) if xb is not None else ""
+
+    def sides(self):
+        return [(self.a, self.xa), (self.b, self.xb)]
+
+    def __repr__(self):
+        return "%s%s(%s, %s)" % ("" if self.sign else "not ", self.kind, self.a, self.b)
+
+
+def _cmp_lit(op, l, r, val):
+    if isinstance(op, (ast.Eq, ast.NotEq, ast.Is, ast.IsNot)):
+        pos = isinstance(op, (ast.Eq, ast.Is)) == val
+        for x, y in ((l, r), (r, l)):
+            if isinstance(y, ast.Constant) and isinstance(y.value, bool) and isinstance(op, (ast.Eq, ast.NotEq)):
+                return literals(x, pos == y.value)       # x == False  ~  not x
+        a, b = sorted((l, r), key=unparse)
+        return [Lit("eq" if isinstance(op, (ast.Eq, ast.NotEq)) else "is", a, b, pos)]
+    if isinstance(op, ast.Gt):
+        return [Lit("gt", l, r, val)]
+    if isinstance(op, ast.Lt):
+        return [Lit("gt", r, l, val)]
+    if isinstance(op, ast.LtE):
+        return [Lit("gt", l, r, not val)]
+    if isinstance(op, ast.GtE):
+        return [Lit("gt", r, l, not val)]
+    if isinstance(op, (ast.In, ast.NotIn)):
+        return [Lit("in", l, r, isinstance(op, ast.In) == val)]
+    return []
+
+
+def literals(e, val):
+    """the literals that are known to hold when the truth value of test e is `val`."""
+    if isinstance(e, ast.UnaryOp) and isinstance(e.op, ast.Not):
+        return literals(e.operand, not val)
+    if isinstance(e, ast.BoolOp):
+        conj = isinstance(e.op, ast.And)
+        if conj == val:
+            return [l for v in e.values for l in literals(v, val)]
+        return literals(e.values[0], val) if len(e.values) == 1 else []
+    if isinstance(e, ast.Compare):
+        if len(e.ops) == 1:
+            return _cmp_lit(e.ops[0], e.left, e.comparators[0], val)
+        if val:
+            out, left = [], e.left
+            for op, r in zip(e.ops, e.comparators):
+                out.extend(_cmp_lit(op, left, r, True))
+                left = r
+            return out
+        return []
+    if isinstance(e, ast.Call) and isinstance(e.func, ast.Name) and e.func.id == "bool" and len(e.args) == 1 and not e.keywords:
+        return literals(e.args[0], val)
+    if isinstance(e, ast.Constant):
+        return []
+    return [Lit("truth", e, None, val)]
+
+
+def truth_under(test, bind):
+    """truth value of the test when the names/dotted chains are bound by bind(text) (raise Unknown for the rest); None if undetermined."""
+    def ca(d):
+        return bind(d)
+    try:
+        ev = Evaluator(env={}, class_attr=ca)
+        return bool(ev.truth(ev.ev(test)))
+    except (Unknown, ExtractError, TypeError, ValueError, ZeroDivisionError):
+        return None
+
+
+def decided_by(test, roles, lo, hi, other=None):
+    """outcome (True/False) the test has for role value `hi` when it is decided by the role alone and flips between lo and hi; else None.
+    roles: set of name/dotted texts; other: value for every other name (None -> unknown)."""
+    mentioned = {d for d in Flow.reads(test)}
+    if not (mentioned & set(roles)):
+        return None
+
+    def binder(v):
+        def b(d):
+            if d in roles:
+                return v
+            if other is not None:
+                return other(d)
+            raise Unknown(d)
+        return b
+    a, b = truth_under(test, binder(lo)), truth_under(test, binder(hi))
+    if a is None or b is None or a == b:
+        return None
+    return b
+
+
+def enum_values(repo, rel, name):
+    c = repo.cls(rel, name)
+    return {n.targets[0].id: const(n.value) for n in c.body if isinstance(n, ast.Assign) and isinstance(n.targets[0], ast.Name)}
 
 
 def the_loop(g):
@@ -31,45 +533,179 @@ def the_loop(g):
     return heads[0]
 
 
-def is_pure_status_test(node):
-    """`solver_status == 0` / `== SolverStatus.error` with no other conjunct."""
-    if not isinstance(node, ast.Compare) or len(node.ops) != 1 or not isinstance(node.ops[0], ast.Eq):
-        return False
-    l, r = unparse(node.left), unparse(node.comparators[0])
-    return l == "solver_status" and (r == "0" or r.endswith("SolverStatus.error") or r.endswith("ResultsStatus.error"))
+def _status_of(fl, tup, at, rmap=None):
+    """{'error','converged',...} the first element of a returned triple can be (dotted SolverStatus member names); '?' for anything else."""
+    out = set()
+    for lf in fl.origins(tup.elts[0], at, rmap):
+        d = dotted(lf.ast) if lf.kind == "expr" else None
+        if d is not None and d.split(".")[-2:-1] == ["SolverStatus"]:
+            out.add(d.split(".")[-1])
+        else:
+            out.add("?")
+    return out
+
+
+def returned_values(fl, start=None, rmap=None):
+    """[(return node, [Leaf])] for the Return nodes reachable from start (default: all)."""
+    g = fl.g
+    rets = g.nodes_where(lambda node, d: isinstance(node, ast.Return))
+    if start is not None:
+        reach = set()
+        for s in start:
+            reach |= g.reachable(s)
+        rets = [r for r in rets if r in reach]
+    out = []
+    for r in rets:
+        v = g.node_ast(r).value
+        out.append((r, fl.origins(v, r, rmap) if v is not None else [Leaf("expr", ast.Constant(value=None), r)]))
+    return out
 
 
 def run(repo, chk):
     rs = repo.func(CORE, "WNTRSimulator.run_sim")
     chk.fn(rs)
-    g = CFG(rs)
+    fl = Flow(rs)
+    g = fl.g
     head = the_loop(g)
-    solves = g.calling("_solver_helper")
-    stores = g.calling("store_results_in_network")
-    saves = g.calling("save_results")
-    appends = [n for n in g.nodes_where(lambda node, d: isinstance(node, ast.Expr) and "results.time.append(" in unparse(node))]
+    so = repo.func(CORE, "WNTRSimulator._setup_sim_options")
+    chk.fn(so)
+
+    # ---------------------------------------------------------------- roles
+    # the results object is what run_sim returns
+    rnames = {unparse(g.node_ast(r).value) for r in g.nodes_where(lambda node, d: isinstance(node, ast.Return)) if g.node_ast(r).value is not None}
+    if len(rnames) != 1 or not re.match(r"^\w+$", next(iter(rnames))):
+        raise AnchorError("run_sim: expected one returned results variable, found %s" % sorted(rnames))
+    res = next(iter(rnames))
+
+    # attributes _setup_sim_options fills from options.time.* and from its convergence_error parameter
+    def setup_attr(pred, what):
+        out = set()
+        for a in walk(so):
+            if isinstance(a, ast.Assign) and len(a.targets) == 1 and dotted(a.targets[0]) and dotted(a.targets[0]).startswith("self.") and pred(a.value):
+                out.add(dotted(a.targets[0]))
+        if not out:
+            raise AnchorError("_setup_sim_options: attribute holding %s not found" % what)
+        return out
+    hyd_attrs = setup_attr(lambda v: (dotted(v) or "").endswith("options.time.hydraulic_timestep"), "options.time.hydraulic_timestep")
+    rep_attrs = setup_attr(lambda v: (dotted(v) or "").endswith("options.time.report_timestep"), "options.time.report_timestep")
+    conv_roles = {"convergence_error"} | setup_attr(lambda v: isinstance(v, ast.Name) and v.id == "convergence_error", "the convergence_error argument")
+    if "convergence_error" not in fl.params:
+        raise AnchorError("run_sim: parameter convergence_error vanished")
+
+    solves = fl.calling("_solver_helper")
+    stores = fl.calling("store_results_in_network")
+    saves = fl.calling("save_results")
+    appends = []
+    for i in sorted(fl.G.nodes):
+        if isinstance(g.node_ast(i), ast.Expr) and any(fl.call_target(c, i) == res + ".time.append" for c in fl.own_calls(i)):
+            appends.append(i)
     if not (solves and stores and saves and appends):
         raise AnchorError("run_sim: anchors missing (solves=%s stores=%s saves=%s appends=%s)" % (solves, stores, saves, appends))
-    ftests = [n for n in g.nodes_where(lambda node, d: d["kind"] == "test" and is_pure_status_test(node))]
+
+    # a value has role k of the solver triple if every origin is element k of a _solver_helper(...) call
+    def triple_role(expr, at):
+        ks, nodes = set(), set()
+        for lf in fl.origins(expr, at):
+            a = lf.ast if lf.kind == "expr" else None
+            if isinstance(a, ast.Subscript) and isinstance(a.value, ast.Call) and (call_name(a.value) or "").split(".")[-1] == "_solver_helper" and isinstance(const(a.slice), int):
+                ks.add(const(a.slice))
+                nodes.add(lf.node)
+            else:
+                return None, set()
+        return (ks.pop(), nodes) if len(ks) == 1 else (None, set())
+
+    def role_names(test, at, k):
+        """names in the (resolved) test that hold element k of the solver triple -> {name: solve nodes}"""
+        out = {}
+        for n in ast.walk(test):
+            if isinstance(n, ast.Name) and isinstance(n.ctx, ast.Load) and n.id in fl.locals:
+                kk, nodes = triple_role(n, at)
+                if kk == k:
+                    out[n.id] = nodes
+        return out
+
+    sstat = enum_values(repo, SOLV, "SolverStatus")
+    rstat = enum_values(repo, RES, "ResultsStatus")
+    chk.expect(sstat.get("error") == 0 and sstat.get("converged") == 1, "R-C16-2", "SolverStatus.error == 0 (the value run_sim tests)", loc(SOLV, repo.cls(SOLV, "SolverStatus")), found=sstat)
+
+    def enum_const(d):
+        p = d.split(".")
+        if len(p) >= 2 and p[-2] == "SolverStatus" and p[-1] in sstat:
+            return sstat[p[-1]]
+        if len(p) >= 2 and p[-2] == "ResultsStatus" and p[-1] in rstat:
+            return rstat[p[-1]]
+        raise Unknown(d)
+
+    # failure tests: decided by the status of the last solve alone, true for error (0) and false for converged (1) on one edge
+    ftests = {}     # test node -> (outcome on which the solve has failed, solve nodes whose status is tested)
+    for t in fl.tests():
+        rt = fl.rtest(t)
+        sn = role_names(rt, t, 0)
+        if not sn:
+            continue
+        o = decided_by(rt, set(sn), sstat.get("converged", 1), sstat.get("error", 0), other=enum_const)
+        if o is not None:
+            ftests[t] = (o, set().union(*sn.values()))
     if not ftests:
-        raise AnchorError("run_sim: no pure `solver_status == 0` test")
+        raise AnchorError("run_sim: no test that is decided by the solver status alone")
+
+    # trial counter: a local incremented by a positive constant inside the loop; trial test: decided by the counter against anything else
+    def is_incr(node):
+        if isinstance(node, ast.AugAssign) and isinstance(node.target, ast.Name) and isinstance(node.op, ast.Add):
+            return isinstance(const(node.value), int) and const(node.value) > 0
+        if isinstance(node, ast.Assign) and len(node.targets) == 1 and isinstance(node.targets[0], ast.Name) and isinstance(node.value, ast.BinOp) and isinstance(node.value.op, ast.Add):
+            l, r = node.value.left, node.value.right
+            nm = node.targets[0].id
+            return (isinstance(l, ast.Name) and l.id == nm and isinstance(const(r), int) and const(r) > 0) or (isinstance(r, ast.Name) and r.id == nm and isinstance(const(l), int) and const(l) > 0)
+        return False
+    inloop = g.reachable(head)
+    tinc = [n for n in g.nodes_where(lambda node, d: is_incr(node)) if n in inloop and head in g.reachable(n)]
+    counters = {(_target_names(g.node_ast(n).targets[0]) if isinstance(g.node_ast(n), ast.Assign) else [g.node_ast(n).target.id])[0] for n in tinc}
+    trial_tests = {}
+    for t in fl.tests():
+        if t in ftests or t not in inloop:
+            continue
+        raw = g.node_ast(t)
+        o = decided_by(raw, counters, -10 ** 9, 10 ** 9, other=lambda d: 7) if counters else None
+        if o is not None:
+            trial_tests[t] = (o, set())
+
+    # tests decided by convergence_error
+    conv = {}
+    for t in fl.tests():
+        o = decided_by(fl.rtest(t), conv_roles, False, True)
+        if o is not None:
+            conv[t] = o
+    conv_edges = [(t, o) for t, o in conv.items()]
 
     # ---------------------------------------------------------------- R-C16-1 failure exits
     for s in solves:
-        w = g.can_reach_avoiding(s, stores, ftests, drop_back=True)
-        chk.expect(w is None, "R-C16-1", "every path from the solver call at line %d to store_results_in_network tests the solver status" % g.g.nodes[s]["line"], loc(rs, g.node_ast(s)),
+        via = [t for t, (o, nodes) in ftests.items() if s in nodes]
+        w = g.can_reach_avoiding(s, stores, via, drop_back=True)
+        chk.expect(w is None, "R-C16-1", "every path from the solver call at line %d to store_results_in_network tests the solver status" % fl.line(s), loc(rs, g.node_ast(s)),
                    "a step whose (backup) solve failed must never be stored as if it had converged",
-                   expected="path passes `if solver_status == 0:` after the last solve", found=g.path_text(w) if w else None)
+                   expected="path passes a test decided by the status of this solve (`if solver_status == 0:`) after the last solve", found=g.path_text(w) if w else None)
     bad_targets = set(stores) | set(saves) | set(appends)
-    trial_tests = [n for n in g.nodes_where(lambda node, d: d["kind"] == "test" and re.match(r"^trial\s*>=?\s*max_trials$", unparse(node)))]
     chk.expect(len(trial_tests) == 1, "R-C16-1", "run_sim bounds the number of re-solve trials", loc(rs), found=[g.label(t) for t in trial_tests])
-    errs = g.nodes_where(lambda node, d: isinstance(node, ast.Assign) and unparse(node.targets[0]) == "results.error_code")
-    err_set = [n for n in errs if "error" in unparse(g.node_ast(n).value) and "None" not in unparse(g.node_ast(n).value)]
-    err_none = [n for n in errs if unparse(g.node_ast(n).value) == "None"]
-    warns = g.calling("warnings.warn")
-    for t in ftests + trial_tests:
+
+    def is_res_attr(t, attr):
+        return dotted(t) == "%s.%s" % (res, attr)
+    errs = g.nodes_where(lambda node, d: isinstance(node, ast.Assign) and any(is_res_attr(t, "error_code") for t in node.targets))
+
+    def err_value(n):
+        v = fl.resolve(g.node_ast(n).value, n)
+        if const(v, 1) is None:
+            return "None"
+        d = dotted(v) or ""
+        return "error" if d.split(".")[-2:] == ["ResultsStatus", "error"] else unparse(v)
+    err_set = [n for n in errs if err_value(n) == "error"]
+    err_none = [n for n in errs if err_value(n) == "None"]
+    err_other = [n for n in errs if n not in err_set and n not in err_none]
+    warns = fl.calling("warnings.warn")
+    fail_edges = [(t, o) for t, (o, _) in list(ftests.items()) + list(trial_tests.items())]
+    for t, (o, _) in sorted(ftests.items()) + sorted(trial_tests.items()):
         kind = "solver failure" if t in ftests else "trial limit"
-        succ = g.succ_on(t, True)
+        succ = g.succ_on(t, o)
         if not succ:
             chk.bad("R-C16-1", "%s branch exists" % kind, loc(rs, g.node_ast(t)))
             continue
@@ -85,97 +721,163 @@ def run(repo, chk):
         # the loop must be left: the loop head is not reachable again from the branch
         back = g.can_reach_avoiding(s0, [head], [], drop_back=False)
         chk.expect(back is None, "R-C16-1", "%s branch leaves the time loop (the run stops there)" % kind, loc(rs, g.node_ast(t)), found=g.path_text(back) if back else None)
-        # raise only under convergence_error
-        raises = [n for n in g.reachable(s0, g.view(drop_back=True)) if isinstance(g.node_ast(n), ast.Raise)]
-        conv = [n for n in g.nodes_where(lambda node, d: d["kind"] == "test" and re.search(r"convergence_error", unparse(node)))]
-        idom = g.dominators()
-        for r in raises:
-            okr = any(g.dominates(c, r, idom) and r in g.reachable(g.succ_on(c, True)[0], g.view(drop_back=True)) for c in conv)
+        # raise only, and always, under convergence_error
+        region = g.reachable(s0, g.view(drop_back=True))
+        raises = [n for n in region if isinstance(g.node_ast(n), ast.Raise)]
+        gc = fl.cut(conv_edges, drop_back=True)
+        for r in sorted(raises):
+            okr = not (r in gc and s0 in gc and nx.has_path(gc, s0, r))
             chk.expect(okr, "R-C16-1", "%s: RuntimeError is raised iff convergence_error is set" % kind, loc(rs, g.node_ast(r)), found=g.label(r))
         chk.expect(bool(raises), "R-C16-1", "%s: a RuntimeError is raised when convergence_error=True" % kind, loc(rs, g.node_ast(t)))
+        for c in sorted(c for c in conv if c in region):
+            for b in g.succ_on(c, conv[c]):
+                w = g.can_reach_avoiding(b, [g.exit, head], raises, drop_back=False)
+                chk.expect(w is None, "R-C16-1", "%s: with convergence_error set every path ends in the raise" % kind, loc(rs, g.node_ast(c)), found=g.path_text(w) if w else None)
     idom = g.dominators()
     chk.expect(len(err_none) == 1 and g.dominates(err_none[0], head, idom), "R-C16-1", "results.error_code is initialised to None before the time loop", loc(rs), found=[g.label(n) for n in err_none])
-    for n in err_set:
-        okd = any(g.dominates(t, n, idom) for t in ftests + trial_tests)
-        chk.expect(okd, "R-C16-1", "results.error_code is set to error only on a failure branch (line %d)" % g.g.nodes[n]["line"], loc(rs, g.node_ast(n)))
-    chk.floor("R-C16-1", 14)
+    for n in err_set + err_other:
+        okd = n in err_set and fl.only_behind(n, fail_edges)
+        chk.expect(okd, "R-C16-1", "results.error_code is set to error only on a failure branch (line %d)" % fl.line(n), loc(rs, g.node_ast(n)), found=g.label(n))
+    chk.floor("R-C16-1", 16)
 
     # ---------------------------------------------------------------- R-C16-3 one row per time
-    upd = g.calling("update_network_previous_values")
-    inloop = g.reachable(head)
+    # the clock: what is advanced by the hydraulic timestep inside the loop
+    def advance(node):
+        """(target text, added expression) of `x += e` / `x = x + e`"""
+        if isinstance(node, ast.AugAssign) and isinstance(node.op, ast.Add) and dotted(node.target):
+            return dotted(node.target), node.value
+        if isinstance(node, ast.Assign) and len(node.targets) == 1 and dotted(node.targets[0]) and isinstance(node.value, ast.BinOp) and isinstance(node.value.op, ast.Add):
+            tt = dotted(node.targets[0])
+            if dotted(node.value.left) == tt:
+                return tt, node.value.right
+            if dotted(node.value.right) == tt:
+                return tt, node.value.left
+        return None
+    adv = []
+    for n in g.nodes_where(lambda node, d: advance(node) is not None):
+        tt, e = advance(g.node_ast(n))
+        if n in inloop and head in g.reachable(n) and dotted(fl.resolve(e, n)) in hyd_attrs:
+            adv.append(n)
+    clocks = {advance(g.node_ast(n))[0] for n in adv}
+    if len(clocks) != 1:
+        raise AnchorError("run_sim: the simulation clock (the attribute advanced by %s in the loop) was not found: %s" % (sorted(hyd_attrs), sorted(clocks)))
+    clock = clocks.pop()
+
+    upd = fl.calling("update_network_previous_values")
     upd_in_loop = [u for u in upd if u in inloop and head in g.reachable(u)]
-    dup = g.nodes_where(lambda node, d: d["kind"] == "test" and "results.time[-1]" in unparse(node))
+    last_time = "%s.time[-1]" % res
+
+    def is_dup(l):
+        return l.kind == "eq" and l.sign and any(a == last_time for a, _ in l.sides())
+    dup_edges = fl.edges_implying(is_dup)
+    dup = sorted({t for t, _ in dup_edges})
     for s in saves:
-        w = g.can_reach_avoiding(s, upd_in_loop, appends, drop_back=True)
-        chk.expect(w is None, "R-C16-3", "save_results at line %d is followed by results.time.append on every non-raising path" % g.g.nodes[s]["line"], loc(rs, g.node_ast(s)),
+        w = g.can_reach_avoiding(s, upd_in_loop + [head, g.exit], appends, drop_back=False)
+        chk.expect(w is None, "R-C16-3", "save_results at line %d is followed by results.time.append on every non-raising path" % fl.line(s), loc(rs, g.node_ast(s)),
                    "node/link rows and the time index must grow together", found=g.path_text(w) if w else None)
         w = g.can_reach_avoiding(s, appends, dup, drop_back=True)
-        chk.expect(w is None, "R-C16-3", "the duplicate-time test precedes the append after save_results at line %d" % g.g.nodes[s]["line"], loc(rs, g.node_ast(s)), found=g.path_text(w) if w else None)
+        chk.expect(w is None, "R-C16-3", "the duplicate-time test precedes the append after save_results at line %d" % fl.line(s), loc(rs, g.node_ast(s)), found=g.path_text(w) if w else None)
         reach = g.reachable(s, g.view(drop_back=True))
         na = [a for a in appends if a in reach]
-        chk.expect(len(na) == 1, "R-C16-3", "exactly one append is reachable from save_results at line %d within the iteration" % g.g.nodes[s]["line"], loc(rs, g.node_ast(s)), found=[g.label(a) for a in na])
+        # ... and no second append can follow the first within the iteration
+        twice = [a for a in na if any(b in g.reachable(a, g.view(drop_back=True)) - {a} for b in appends)]
+        chk.expect(len(na) >= 1 and not twice, "R-C16-3", "exactly one append is reachable from save_results at line %d within the iteration" % fl.line(s), loc(rs, g.node_ast(s)), found=[g.label(a) for a in na])
     for a in appends:
         w = g.can_reach_avoiding(head, [a], saves, drop_back=True)
-        chk.expect(w is None, "R-C16-3", "results.time.append at line %d is preceded by save_results in the same iteration" % g.g.nodes[a]["line"], loc(rs, g.node_ast(a)), found=g.path_text(w) if w else None)
-        chk.expect("int(self._wn.sim_time)" in unparse(g.node_ast(a)), "R-C16-3", "the appended time is int(sim_time) (line %d)" % g.g.nodes[a]["line"], loc(rs, g.node_ast(a)))
-    for t in dup:
-        s0 = g.succ_on(t, True)
+        chk.expect(w is None, "R-C16-3", "results.time.append at line %d is preceded by save_results in the same iteration" % fl.line(a), loc(rs, g.node_ast(a)), found=g.path_text(w) if w else None)
+        cs = [c for c in fl.own_calls(a) if fl.call_target(c, a) == res + ".time.append"]
+        arg = fl.rtext(cs[0].args[0], a) if cs and len(cs[0].args) == 1 else None
+        chk.expect(arg == "int(%s)" % clock, "R-C16-3", "the appended time is int(sim_time) (line %d)" % fl.line(a), loc(rs, g.node_ast(a)), expected="int(%s)" % clock, found=arg)
+    for t, o in dup_edges:
+        s0 = g.succ_on(t, o)
         w = g.can_reach_avoiding(s0[0], appends + [g.exit], [], drop_back=True) if s0 else None
-        chk.expect(w is None, "R-C16-3", "a repeated time raises instead of appending (test at line %d)" % g.g.nodes[t]["line"], loc(rs, g.node_ast(t)), found=g.path_text(w) if w else None)
-    grid = g.nodes_where(lambda node, d: d["kind"] == "test" and re.search(r"sim_time\s*%\s*self\._report_timestep\s*==\s*0", unparse(node)))
-    chk.expect(len(grid) == 1 and any(g.dominates(grid[0], s, idom) for s in saves), "R-C16-3", "saving on the report grid is guarded by sim_time % report_timestep == 0", loc(rs))
-    # an accepted step is saved: from the `changes_made('graph')` False edge, in 'ALL' mode, save is unavoidable
+        chk.expect(w is None, "R-C16-3", "a repeated time raises instead of appending (test at line %d)" % fl.line(t), loc(rs, g.node_ast(t)), found=g.path_text(w) if w else None)
+
+    def is_grid(l):
+        if l.kind != "eq" or not l.sign:
+            return False
+        for (a, xa), (b, xb) in (l.sides(), l.sides()[::-1]):
+            if b == "0" and isinstance(xa, ast.BinOp) and isinstance(xa.op, ast.Mod) and unparse(xa.left) in (clock, "float(%s)" % clock, "int(%s)" % clock) and dotted(xa.right) in rep_attrs:
+                return True
+        return False
+    grid_edges = fl.edges_implying(is_grid)
+    chk.expect(len({t for t, _ in grid_edges}) == 1 and any(fl.only_behind(s, grid_edges) for s in saves), "R-C16-3", "saving on the report grid is guarded by sim_time % report_timestep == 0", loc(rs),
+               found=[g.label(t) for t, _ in grid_edges])
     chk.floor("R-C16-3", 3 * 2 + 2 * 2 + 2)
 
     # ---------------------------------------------------------------- R-C16-5 progress
-    adv = g.nodes_where(lambda node, d: isinstance(node, ast.AugAssign) and unparse(node.target) == "self._wn.sim_time" and isinstance(node.op, ast.Add))
-    dur = g.nodes_where(lambda node, d: d["kind"] == "test" and "options.time.duration" in unparse(node) and "sim_time" in unparse(node))
-    chk.expect(len(adv) == 1 and unparse(g.node_ast(adv[0]).value) == "self._hydraulic_timestep", "R-C16-5", "the accepted path advances sim_time by the hydraulic timestep", loc(rs),
-               found=[g.label(a) for a in adv])
-    if adv and dur:
-        for u in upd_in_loop:
+    def is_over(l):
+        return l.kind == "gt" and l.sign and l.a == clock and l.b.endswith("options.time.duration")
+    dur_edges = fl.edges_implying(is_over)
+    chk.expect(len(adv) == 1, "R-C16-5", "the accepted path advances sim_time by the hydraulic timestep", loc(rs), found=[g.label(a) for a in adv])
+    if adv and dur_edges:
+        dur = sorted({t for t, _ in dur_edges})
+        for u in sorted(set(upd_in_loop) | set(saves)):
             w = g.can_reach_avoiding(u, [head], adv, drop_back=False)
             chk.expect(w is None, "R-C16-5", "no iteration that saved results returns to the loop head without advancing time", loc(rs, g.node_ast(u)), found=g.path_text(w) if w else None)
         w = g.can_reach_avoiding(adv[0], [head], dur, drop_back=False)
         chk.expect(w is None, "R-C16-5", "the duration test follows the time advance on every path back to the loop head", loc(rs), found=g.path_text(w) if w else None)
-        brk = [b for b in g.succ_on(dur[0], True)]
-        chk.expect(bool(brk) and isinstance(g.node_ast(brk[0]), ast.Break) and re.search(r"sim_time\s*>\s*self\._wn\.options\.time\.duration", unparse(g.node_ast(dur[0]))) is not None,
-                   "R-C16-5", "the loop ends when sim_time exceeds the duration", loc(rs, g.node_ast(dur[0])))
+        for t, o in dur_edges:
+            b = g.succ_on(t, o)
+            w = g.can_reach_avoiding(b[0], [head], [], drop_back=False) if b else [t]
+            chk.expect(w is None, "R-C16-5", "the loop ends when sim_time exceeds the duration", loc(rs, g.node_ast(t)), found=g.path_text(w) if w else None)
+    else:
+        chk.bad("R-C16-5", "the loop ends when sim_time exceeds the duration", loc(rs), found="no test `%s > ...options.time.duration` after the advance" % clock)
     conts = g.nodes_where(lambda node, d: isinstance(node, ast.Continue))
-    tinc = g.nodes_where(lambda node, d: isinstance(node, ast.AugAssign) and unparse(node.target) == "trial" and isinstance(node.op, ast.Add))
     for c in conts:
-        idomc = idom
-        chk.expect(any(g.dominates(t, c, idomc) for t in tinc) and any(g.dominates(t, c, idomc) for t in trial_tests), "R-C16-5",
-                   "the re-solve `continue` at line %d is dominated by `trial += 1` and the trial-limit test" % g.g.nodes[c]["line"], loc(rs, g.node_ast(c)))
-    # any back edge to the loop head comes either from the advance path or from a continue
+        chk.expect(any(g.dominates(t, c, idom) for t in tinc) and any(g.dominates(t, c, idom) for t in trial_tests), "R-C16-5",
+                   "the re-solve `continue` at line %d is dominated by `trial += 1` and the trial-limit test" % fl.line(c), loc(rs, g.node_ast(c)))
+    # options.time.hydraulic_timestep is forced to an integer >= 1: evaluate TimeOptions.__setattr__ symbolically for that name
     to = repo.func(OPT, "TimeOptions.__setattr__")
-    chk.expect("max(1, int(value))" in unparse(to) and "hydraulic_timestep" in unparse(to), "R-C16-5", "options.time.hydraulic_timestep is forced to an integer >= 1", loc(to))
-    chk.floor("R-C16-5", 6)
+    chk.fn(to)
+    chk.expect(_timestep_at_least_one(to), "R-C16-5", "options.time.hydraulic_timestep is forced to an integer >= 1", loc(to))
+    chk.floor("R-C16-5", 7)
 
     # ---------------------------------------------------------------- R-C16-2 solver status discipline
     sv = repo.func(SOLV, "NewtonSolver.solve")
     chk.fn(sv)
-    gs = CFG(sv)
-    rets = gs.nodes_where(lambda node, d: isinstance(node, ast.Return))
+    fs = Flow(sv)
+    gs = fs.g
     preds = list(gs.g.predecessors(gs.exit))
     chk.expect(all(isinstance(gs.node_ast(p), ast.Return) for p in preds), "R-C16-2", "NewtonSolver.solve cannot fall off its end without returning a status", loc(sv),
                found=[gs.label(p) for p in preds if not isinstance(gs.node_ast(p), ast.Return)])
-    idoms = gs.dominators()
-    tol = gs.nodes_where(lambda node, d: d["kind"] == "test" and re.search(r"r_norm\s*<\s*self\.tol", unparse(node)))
-    empty = gs.nodes_where(lambda node, d: d["kind"] == "test" and "len(x) == 0" in unparse(node))
+
+    def is_tol(l, t):
+        # residual norm below the tolerance attribute:  self.tol > <max-abs / norm of the residual>
+        if not (l.kind == "gt" and l.sign and re.match(r"^self\.\w*tol\w*$", l.a)):
+            return False
+        return all(lf.kind == "expr" and re.search(r"\b(abs|norm)\(", lf.text()) for lf in fs.origins(l.xb, t)) and bool(fs.origins(l.xb, t))
+
+    def is_empty(l):
+        if l.kind == "eq" and l.sign:
+            return any(a == "0" and re.match(r"^len\(.*\)$", b) for (a, _), (b, _) in (l.sides(), l.sides()[::-1]))
+        return l.kind == "truth" and not l.sign and re.match(r"^len\(.*\)$", l.a) is not None
+    tol_edges = []
+    for t in fs.tests():
+        for o in (True, False):
+            for l in fs.implied(t, o):
+                if is_tol(l, t) or is_empty(l):
+                    tol_edges.append((t, o))
     kinds = {}
-    for r in rets:
-        v = gs.node_ast(r).value
-        ok3 = isinstance(v, ast.Tuple) and len(v.elts) == 3 and unparse(v.elts[0]) in ("SolverStatus.converged", "SolverStatus.error")
-        chk.expect(ok3, "R-C16-2", "solve returns a (SolverStatus, message, iterations) triple at line %d" % gs.g.nodes[r]["line"], loc(sv, gs.node_ast(r)), found=unparse(v)[:80] if v is not None else None)
-        if not ok3:
-            continue
-        status = unparse(v.elts[0]).split(".")[1]
-        msg = unparse(v.elts[1])
-        kinds.setdefault(status, []).append(msg)
-        if status == "converged":
-            okc = any(gs.dominates(t, r, idoms) and r in gs.reachable(gs.succ_on(t, True)[0], gs.view(drop_back=True)) for t in tol + empty if gs.succ_on(t, True))
-            chk.expect(okc, "R-C16-2", "`converged` is returned only under the tolerance test (line %d)" % gs.g.nodes[r]["line"], loc(sv, gs.node_ast(r)),
+    for r, leaves in returned_values(fs):
+        ok3 = bool(leaves)
+        conv_nodes = []
+        for lf in leaves:
+            v = lf.ast
+            if not (lf.kind == "expr" and isinstance(v, ast.Tuple) and len(v.elts) == 3):
+                ok3 = False
+                continue
+            sts = _status_of(fs, v, lf.node)
+            if not sts <= {"converged", "error"}:
+                ok3 = False
+            for st_ in sts:
+                kinds.setdefault(st_, []).extend(str_consts(v.elts[1]) + [s_ for m in fs.origins(v.elts[1], lf.node) if m.kind == "expr" for s_ in str_consts(m.ast)])
+            if "converged" in sts:
+                conv_nodes.extend(m.node for m in fs.origins(v.elts[0], lf.node) if m.kind == "expr" and (dotted(m.ast) or "").endswith("SolverStatus.converged"))
+        chk.expect(ok3, "R-C16-2", "solve returns a (SolverStatus, message, iterations) triple at line %d" % fs.line(r), loc(sv, gs.node_ast(r)), found=[lf.text()[:80] for lf in leaves])
+        if conv_nodes:
+            okc = all(fs.only_behind(n, tol_edges) for n in conv_nodes)
+            chk.expect(okc, "R-C16-2", "`converged` is returned only under the tolerance test (line %d)" % fs.line(r), loc(sv, gs.node_ast(r)),
                        "a failed solve must never be reported as converged")
     errtxt = " ".join(kinds.get("error", []))
     for what in ("Time limit", "singular", "Line search failed", "maximum number of iterations"):
@@ -183,140 +885,311 @@ def run(repo, chk):
     loops = [n for n in walk(sv) if isinstance(n, (ast.For, ast.While))]
     chk.expect(loops and all(isinstance(l, ast.For) and isinstance(l.iter, ast.Call) and call_name(l.iter) == "range" for l in loops), "R-C16-2",
                "both Newton loops are range-bounded (maxiter, bt_maxiter)", loc(sv), found=[unparse(l).split("\n")[0] for l in loops])
-    # the statement after the outer loop is the iteration-limit error return
-    last = sv.body[-1]
-    chk.expect(isinstance(last, ast.Return) and "SolverStatus.error" in unparse(last), "R-C16-2", "exhausting maxiter returns SolverStatus.error", loc(sv, last))
-    st = repo.cls(SOLV, "SolverStatus")
-    vals = {n.targets[0].id: const(n.value) for n in st.body if isinstance(n, ast.Assign)}
-    chk.expect(vals.get("error") == 0 and vals.get("converged") == 1, "R-C16-2", "SolverStatus.error == 0 (the value run_sim tests)", loc(SOLV, st), found=vals)
+    # leaving the outer loop by exhaustion leads to error returns only
+    outer = [h for l, h in gs.loop_heads.items() if not any(isinstance(p, (ast.For, ast.While)) for p in _ancestors(l, sv))]
+    after = [b for h in outer for b in gs.succ_on(h, False)]
+    exh = returned_values(fs, start=after) if after else []
+    ok_exh = bool(exh)
+    for r, leaves in exh:
+        for lf in leaves:
+            if not (lf.kind == "expr" and isinstance(lf.ast, ast.Tuple) and len(lf.ast.elts) == 3 and _status_of(fs, lf.ast, lf.node) == {"error"}):
+                ok_exh = False
+    chk.expect(ok_exh, "R-C16-2", "exhausting maxiter returns SolverStatus.error", loc(sv, gs.node_ast(exh[0][0]) if exh else None))
+
     sh = repo.func(CORE, "_solver_helper")
     chk.fn(sh)
-    gh = CFG(sh)
-    sols = gh.assigning("sol")
-    w = gh.can_reach_avoiding(gh.entry, [gh.exit], sols, drop_back=False)
-    chk.expect(w is None, "R-C16-2", "_solver_helper assigns a status on every returning path", loc(sh), found=gh.path_text(w) if w else None)
-    for n in sols:
-        v = gh.node_ast(n).value
-        okv = (isinstance(v, ast.Tuple) and unparse(v.elts[0]) in ("SolverStatus.converged", "SolverStatus.error")) or (isinstance(v, ast.Call) and last_attr(v) == "solve")
-        chk.expect(okv, "R-C16-2", "_solver_helper status at line %d is a SolverStatus or the Newton solver's triple" % gh.g.nodes[n]["line"], loc(sh, gh.node_ast(n)), found=unparse(v)[:60])
-    for h in [n for n in walk(sh) if isinstance(n, ast.ExceptHandler)]:
-        asg = [s for s in h.body if isinstance(s, ast.Assign) and dotted(s.targets[0]) == "sol"]
-        chk.expect(bool(asg) and "SolverStatus.error" in unparse(asg[0].value), "R-C16-2", "an exception inside a scipy solver is reported as SolverStatus.error", loc(sh, h))
-    ier = [n for n in walk(sh) if isinstance(n, ast.If) and "ier" in unparse(n.test)]
-    for n in ier:
-        tb = "error" if "!=" in unparse(n.test) else "converged"
-        chk.expect(("SolverStatus." + tb) in unparse(n.body[0]), "R-C16-2", "fsolve's ier != 1 is mapped to SolverStatus.error", loc(sh, n))
+    fh = Flow(sh)
+    gh = fh.g
+    hrets = returned_values(fh)
+    hpreds = list(gh.g.predecessors(gh.exit))
+    unb = [lf for r, leaves in hrets for lf in leaves if lf.kind == "unbound"]
+    chk.expect(bool(hrets) and all(isinstance(gh.node_ast(p), ast.Return) and gh.node_ast(p).value is not None for p in hpreds) and not unb, "R-C16-2",
+               "_solver_helper assigns a status on every returning path", loc(sh), found=[gh.label(p) for p in hpreds if not isinstance(gh.node_ast(p), ast.Return)] + [lf.text() for lf in unb])
+
+    def leaf_status(f, lf, rmap=None):
+        """set of statuses of one returned leaf: subset of {'error','converged'}, {'newton'} for the Newton solver's own triple, {'?'} otherwise"""
+        v = lf.ast
+        if lf.kind != "expr":
+            return {"?"}
+        if isinstance(v, ast.Tuple) and len(v.elts) == 3:
+            return _status_of(f, v, lf.node, rmap)
+        if isinstance(v, ast.Call) and last_attr(v) == "solve":
+            return {"newton"}
+        return {"?"}
+    seen_leaf = set()
+    none_count = False
+    for r, leaves in hrets:
+        for lf in leaves:
+            if lf.kind == "unbound" or (lf.node, lf.text()) in seen_leaf:
+                continue
+            seen_leaf.add((lf.node, lf.text()))
+            sts = leaf_status(fh, lf)
+            chk.expect(sts <= {"error", "converged", "newton"}, "R-C16-2", "_solver_helper status at line %d is a SolverStatus or the Newton solver's triple" % fh.line(lf.node), loc(sh, gh.node_ast(lf.node)), found=lf.text()[:60])
+            if lf.kind == "expr" and isinstance(lf.ast, ast.Tuple) and len(lf.ast.elts) == 3:
+                if any(m.kind == "expr" and isinstance(m.ast, ast.Constant) and m.ast.value is None for m in fh.origins(lf.ast.elts[2], lf.node)):
+                    none_count = True
+    # an exception caught inside the helper ends in an error status
+    for h in [i for i, d in sorted(gh.g.nodes(data=True)) if d["kind"] == "except"]:
+        rmap = fh.flow_from(h)
+        hr = returned_values(fh, start=[h], rmap=rmap)
+        sts = set()
+        for r, leaves in hr:
+            for lf in leaves:
+                sts |= leaf_status(fh, lf, rmap)
+        reraises = [n for n in gh.reachable(h) if isinstance(gh.node_ast(n), ast.Raise)]
+        chk.expect(sts == {"error"} or (not sts and reraises), "R-C16-2", "an exception inside a scipy solver is reported as SolverStatus.error", loc(sh, gh.node_ast(h)), found=sorted(sts))
+    # fsolve: `converged` only behind ier == 1 (ier: element 2 of the 4-tuple fsolve returns with full_output)
+    def ier_lit(l, t):
+        if l.kind != "eq":
+            return False
+        for (a, xa), (b, xb) in (l.sides(), l.sides()[::-1]):
+            if a == "1" and xb is not None:
+                os_ = fh.origins(xb, t)
+                if os_ and all(m.kind == "expr" and isinstance(m.ast, ast.Subscript) and const(m.ast.slice) == 2 and isinstance(m.ast.value, ast.Call) for m in os_):
+                    return True
+        return False
+    four = gh.nodes_where(lambda node, d: isinstance(node, ast.Assign) and isinstance(node.value, ast.Call) and any(isinstance(t, ast.Tuple) and len(t.elts) == 4 for t in node.targets))
+    ok_edges, bad_edges, fnodes = [], [], set(four)
+    for t in fh.tests():
+        for o in (True, False):
+            for l in fh.implied(t, o):
+                if ier_lit(l, t):
+                    (ok_edges if l.sign else bad_edges).append((t, o))
+                    for (a, xa) in l.sides():
+                        if xa is not None and a != "1":
+                            fnodes.update(m.node for m in fh.origins(xa, t))
+    if not fnodes:
+        raise ExtractError("_solver_helper: the call that unpacks fsolve's (x, infodict, ier, mesg) was not found")
+    for f in sorted(fnodes):
+        rmap = fh.flow_from(f)
+        convs = []
+        for r, leaves in returned_values(fh, start=[f], rmap=rmap):
+            for lf in leaves:
+                if lf.kind == "expr" and isinstance(lf.ast, ast.Tuple) and len(lf.ast.elts) == 3 and "converged" in _status_of(fh, lf.ast, lf.node, rmap):
+                    convs.append(lf.node)
+        okf = bool(convs) and all(fh.only_behind(n, ok_edges, src=f) for n in convs)
+        chk.expect(okf, "R-C16-2", "fsolve's ier != 1 is mapped to SolverStatus.error", loc(sh, gh.node_ast(f)),
+                   "fsolve reports failure through ier in 2..5; `converged` may only be returned on the edge where ier == 1 holds", found=[gh.label(n) for n in convs])
+    for t, o in bad_edges:
+        rmap = fh.flow_from_edge(t, o)
+        sts = set()
+        for r, leaves in returned_values(fh, start=gh.succ_on(t, o), rmap=rmap):
+            for lf in leaves:
+                sts |= leaf_status(fh, lf, rmap)
+        chk.expect(sts == {"error"}, "R-C16-2", "fsolve's ier != 1 is mapped to SolverStatus.error (edge at line %d)" % fh.line(t), loc(sh, gh.node_ast(t)), found=sorted(sts))
     chk.floor("R-C16-2", 8 + 4 + 4 + 3)
 
     # ---------------------------------------------------------------- R-C16-4 families
     NODE_KEYS = {"head", "demand", "pressure", "leak_demand"}
     LINK_KEYS = {"flowrate", "velocity", "status", "setting"}
     init = repo.func(HYD, "initialize_results_dict")
-    keys = {"node_res": {}, "link_res": {}}
-    for s in walk(init):
-        if isinstance(s, ast.Assign) and isinstance(s.targets[0], ast.Subscript):
-            d = dotted(s.targets[0].value)
-            k = const(s.targets[0].slice)
-            if d in keys and isinstance(k, str):
-                keys[d][k] = "wn.nodes()" if "wn.nodes()" in unparse(s.value) else ("wn.links()" if "wn.links()" in unparse(s.value) else unparse(s.value))
-    chk.expect(set(keys["node_res"]) == NODE_KEYS and set(keys["node_res"].values()) == {"wn.nodes()"}, "R-C16-4", "initialize_results_dict creates the four node tables over all nodes", loc(init), found=keys["node_res"])
-    chk.expect(set(keys["link_res"]) == LINK_KEYS and set(keys["link_res"].values()) == {"wn.links()"}, "R-C16-4", "initialize_results_dict creates the four link tables over all links", loc(init), found=keys["link_res"])
+    chk.fn(init)
+
+    def dict_hook(name, n, args, kwargs, st, ex, recv=None):
+        if name in ("OrderedDict", "dict", "collections.OrderedDict") and not args and not kwargs:
+            return {}
+        return NotImplemented
+    wn0 = init.args.args[0].arg if init.args.args else "wn"
+    outs = [o for o in SymExec(call_hook=dict_hook).run(init) if o.raised is None]
+    if not outs or any(not (isinstance(o.ret, (tuple, list)) and len(o.ret) == 2 and all(isinstance(x, dict) for x in o.ret)) for o in outs):
+        raise ExtractError("initialize_results_dict: the returned (node tables, link tables) pair could not be evaluated")
+    for k, (what, want, over) in enumerate((("node", NODE_KEYS, "nodes"), ("link", LINK_KEYS, "links"))):
+        okk = True
+        found = {}
+        for o in outs:
+            tab = o.ret[k]
+            found = {kk: (v.text if isinstance(v, Opaque) else str(v)) for kk, v in tab.items()}
+            pat = r"\bin %s\.(%s\(\)|%s_name_list)" % (re.escape(wn0), over, what)
+            if set(tab) != want or not all(re.search(pat, t) for t in found.values()):
+                okk = False
+        chk.expect(okk, "R-C16-4", "initialize_results_dict creates the four %s tables over all %s" % (what, over), loc(init), found=found)
     svf = repo.func(HYD, "save_results")
     chk.fn(svf)
+    if len(svf.args.args) < 3:
+        raise AnchorError("save_results: expected (wn, node tables, link tables)")
+    wn1, p_node, p_link = [a.arg for a in svf.args.args[:3]]
     ex = SymExec()
-    fam_n = {"wn.junctions()", "wn.tanks()", "wn.reservoirs()"}
-    fam_l = {"wn.pipes()", "wn.head_pumps()", "wn.power_pumps()", "wn.valves()"}
+    fam_n = {"junctions", "tanks", "reservoirs"}
+    fam_l = {"pipes", "head_pumps", "power_pumps", "valves"}
     seen = {}
+    pat = re.compile(r"^(%s|%s)\['(\w+)'\]\[(\w+)\]\.append\(" % (re.escape(p_node), re.escape(p_link)))
     for o in ex.run(svf):
         cnt = {}
+        loopvar = {}
         for e in o.events:
+            if e[0] == "loop":
+                loopvar[e[2]] = [x.strip() for x in e[1].strip("()").split(",")]
             if e[0] == "call" and ".append(" in e[1]:
-                m = re.match(r"^(node_res|link_res)\['(\w+)'\]\[name\]\.append\(", e[1])
+                m = pat.match(e[1])
                 if m and len(e) > 4 and e[4]:
-                    cnt[(e[4][-1], m.group(1), m.group(2))] = cnt.get((e[4][-1], m.group(1), m.group(2)), 0) + 1
+                    it = e[4][-1]
+                    fm = re.match(r"^%s\.(\w+)\(\)$" % re.escape(wn1), it)
+                    fam = fm.group(1) if fm else it
+                    if loopvar.get(it, [None])[0] != m.group(3):
+                        fam = "%s[indexed by %s]" % (fam, m.group(3))
+                    res_kind = "node_res" if m.group(1) == p_node else "link_res"
+                    cnt[(fam, res_kind, m.group(2))] = cnt.get((fam, res_kind, m.group(2)), 0) + 1
         for k, v in cnt.items():
             seen.setdefault(k, set()).add(v)
-        for fam, res, ks in [(f, "node_res", NODE_KEYS) for f in fam_n] + [(f, "link_res", LINK_KEYS) for f in fam_l]:
+        for fam, rk, ks in [(f, "node_res", NODE_KEYS) for f in fam_n] + [(f, "link_res", LINK_KEYS) for f in fam_l]:
             for k in ks:
-                if (fam, res, k) not in cnt:
-                    seen.setdefault((fam, res, k), set()).add(0)
-    for fam, res, ks in [(f, "node_res", NODE_KEYS) for f in sorted(fam_n)] + [(f, "link_res", LINK_KEYS) for f in sorted(fam_l)]:
+                if (fam, rk, k) not in cnt:
+                    seen.setdefault((fam, rk, k), set()).add(0)
+    for fam, rk, ks in [(f, "node_res", NODE_KEYS) for f in sorted(fam_n)] + [(f, "link_res", LINK_KEYS) for f in sorted(fam_l)]:
         for k in sorted(ks):
-            chk.expect(seen.get((fam, res, k)) == {1}, "R-C16-4", "save_results appends exactly once to %s['%s'] for every element of %s on every path" % (res, k, fam), loc(svf),
-                       "every element must get one value per table per saved time (one column per element, equal lengths)", expected="{1}", found=sorted(seen.get((fam, res, k), {0})))
+            chk.expect(seen.get((fam, rk, k)) == {1}, "R-C16-4", "save_results appends exactly once to %s['%s'] for every element of wn.%s() on every path" % (rk, k, fam), loc(svf),
+                       "every element must get one value per table per saved time (one column per element, equal lengths)", expected="{1}", found=sorted(seen.get((fam, rk, k), {0})))
     extra = {k[0] for k in seen} - fam_n - fam_l
     chk.expect(not extra, "R-C16-4", "save_results appends only inside the seven element-family loops", loc(svf), found=sorted(extra))
     gr = repo.func(HYD, "get_results")
     chk.fn(gr)
-    src = unparse(gr)
-    nn = [s for s in walk(gr) if isinstance(s, ast.Assign) and dotted(s.targets[0]) == "node_names"]
-    ln = [s for s in walk(gr) if isinstance(s, ast.Assign) and dotted(s.targets[0]) == "link_names"]
-    chk.expect(bool(nn) and set(re.findall(r"wn\.(\w+)_name_list", unparse(nn[0].value))) == {"junction", "tank", "reservoir"}, "R-C16-4", "get_results orders node columns as junctions + tanks + reservoirs (all node families)", loc(gr))
-    chk.expect(bool(ln) and set(re.findall(r"wn\.(\w+)_name_list", unparse(ln[0].value))) == {"pipe", "head_pump", "power_pump", "valve"}, "R-C16-4", "get_results orders link columns as pipes + head pumps + power pumps + valves (the saved families)", loc(gr))
-    for res, names in (("node_res", "node_names"), ("link_res", "link_names")):
-        dfs = [c for c in calls(gr) if call_name(c) == "pd.DataFrame" and res in unparse(c)]
-        okdf = bool(dfs) and all(("for name in %s" % names) in unparse(c) and any(k.arg == "columns" and unparse(k.value) == names for k in c.keywords) and
-                                 any(k.arg == "index" and unparse(k.value) == "results.time" for k in c.keywords) for c in dfs)
-        chk.expect(okdf, "R-C16-4", "get_results builds %s tables with data and column labels from the same name list, indexed by results.time" % res, loc(gr))
+    if len(gr.args.args) < 4:
+        raise AnchorError("get_results: expected (wn, results, node tables, link tables)")
+    wn2, p_res, g_node, g_link = [a.arg for a in gr.args.args[:4]]
+    fg = Flow(gr)
+    frames = {g_node: [], g_link: []}
+    for i in sorted(fg.G.nodes):
+        for c in fg.own_calls(i):
+            if fg.call_target(c, i).split(".")[-1] != "DataFrame":
+                continue
+            data = next((k.value for k in c.keywords if k.arg == "data"), c.args[0] if c.args else None)
+            comps = [x for x in ast.walk(data) if isinstance(x, _COMPS)] if data is not None else []
+            which = None
+            for cp in comps:
+                elt = cp.elt if not isinstance(cp, ast.DictComp) else cp.value
+                root = elt
+                while isinstance(root, (ast.Subscript, ast.Attribute)):
+                    root = root.value
+                if isinstance(root, ast.Name) and root.id in frames and len(cp.generators) == 1:
+                    idx = unparse(elt.slice) if isinstance(elt, ast.Subscript) else None
+                    which = (root.id, cp, idx == unparse(cp.generators[0].target))
+            if which is None:
+                continue
+            rname, cp, by_elem = which
+            it = fg.rtext(cp.generators[0].iter, i)
+            cols = next((fg.rtext(k.value, i) for k in c.keywords if k.arg == "columns"), None)
+            index = next((fg.rtext(k.value, i) for k in c.keywords if k.arg == "index"), None)
+            frames[rname].append((i, it, cols, index, by_elem))
+    for rname, rk, fams, alln in ((g_node, "node_res", {"junction", "tank", "reservoir"}, "node"), (g_link, "link_res", {"pipe", "head_pump", "power_pump", "valve"}, "link")):
+        fr = frames[rname]
+        fam_ok = bool(fr) and all(set(re.findall(r"\b%s\.(\w+)_name_list" % re.escape(wn2), it)) in (fams, {alln}) for _, it, _, _, _ in fr)
+        if rk == "node_res":
+            chk.expect(fam_ok, "R-C16-4", "get_results orders node columns as junctions + tanks + reservoirs (all node families)", loc(gr), found=[it for _, it, _, _, _ in fr])
+        else:
+            chk.expect(fam_ok, "R-C16-4", "get_results orders link columns as pipes + head pumps + power pumps + valves (the saved families)", loc(gr), found=[it for _, it, _, _, _ in fr])
+        okdf = bool(fr) and all(by_elem and cols == it and index == "%s.time" % p_res for _, it, cols, index, by_elem in fr)
+        chk.expect(okdf, "R-C16-4", "get_results builds %s tables with data and column labels from the same name list, indexed by results.time" % rk, loc(gr), found=[(it, cols, index) for _, it, cols, index, _ in fr])
     chk.floor("R-C16-4", 2 + 28 + 1 + 4)
 
     # ---------------------------------------------------------------- R-C16-6 a step that was solved is never lost to a crash in the bookkeeping
     # (a) the solver helper may return None as iteration count (scipy solvers): run_sim must not hand it to a format spec
-    sh = repo.func(CORE, "_solver_helper")
-    rsf = repo.func(CORE, "WNTRSimulator.run_sim")
-    chk.fn(sh, rsf)
-    none_count = False
-    for a in walk(sh):
-        if isinstance(a, ast.Assign) and isinstance(a.value, ast.Tuple) and len(a.value.elts) == 3 and const(a.value.elts[2], 1) is None:
-            none_count = True
-        if isinstance(a, ast.Return) and isinstance(a.value, ast.Tuple) and len(a.value.elts) == 3 and const(a.value.elts[2], 1) is None:
-            none_count = True
-    unpack = [a for a in walk(rsf) if isinstance(a, ast.Assign) and isinstance(a.targets[0], ast.Tuple) and len(a.targets[0].elts) == 3 and "_solver_helper" in unparse(a.value)]
-    if not unpack:
-        raise AnchorError("run_sim: unpacking of _solver_helper's triple not found")
-    cnt_name = unparse(unpack[0].targets[0].elts[2])
-    import re as _re
-    for c in calls(rsf):
-        if isinstance(c.func, ast.Attribute) and c.func.attr == "format" and isinstance(c.func.value, ast.Constant) and isinstance(c.func.value.value, str):
-            for i, a in enumerate(c.args):
-                if any(isinstance(x, ast.Name) and x.id == cnt_name for x in ast.walk(a)):
-                    bare = isinstance(a, ast.Name)
-                    spec = _re.search(r"\{%d:([^}]+)\}" % i, c.func.value.value)
-                    chk.expect(not (none_count and spec and bare), "R-C16-6", "run_sim does not apply a format spec to the iteration count, which is None for scipy solvers", loc(rsf, c),
-                               "_solver_helper returns (status, message, None) for fsolve / newton_krylov / ...; '{%d:%s}'.format(None) raises TypeError, so a step rescued by a scipy "
-                               "(backup) solver crashes the run instead of being reported" % (i, spec.group(1) if spec else ""), expected="str(%s)" % cnt_name, found=norm(c))
-    # (b) the report timestep is classified by one predicate in the set-up and in the loop
-    so = repo.func(CORE, "WNTRSimulator._setup_sim_options")
-    chk.fn(so)
+    def is_count(e, at):
+        return isinstance(e, ast.Name) and triple_role(e, at)[0] == 2
+    n_fmt = 0
+    for i in sorted(fl.G.nodes):
+        for e in fl.own_exprs(i):
+            for x in walk(e):
+                hits = []      # (spec text, printable) for each bare use of the count in a formatting position
+                if isinstance(x, ast.Call) and isinstance(x.func, ast.Attribute) and x.func.attr == "format":
+                    fmts = [lf.ast.value for lf in fl.origins(x.func.value, i) if lf.kind == "expr" and isinstance(lf.ast, ast.Constant) and isinstance(lf.ast.value, str)]
+                    for k, a in enumerate(x.args):
+                        if is_count(a, i):
+                            for f in fmts:
+                                m = re.search(r"\{%d(?:![rsa])?:([^}]+)\}" % k, f)
+                                hits.append(m.group(1) if m else None)
+                            if not fmts:
+                                hits.append(None)
+                elif isinstance(x, ast.FormattedValue) and is_count(x.value, i):
+                    hits.append(unparse(x.format_spec) if x.format_spec is not None else None)
+                elif isinstance(x, ast.BinOp) and isinstance(x.op, ast.Mod) and isinstance(x.left, ast.Constant) and isinstance(x.left.value, str):
+                    argl = x.right.elts if isinstance(x.right, ast.Tuple) else [x.right]
+                    specs = re.findall(r"%(?:\([^)]*\))?[-#0 +]*\d*(?:\.\d+)?([a-zA-Z%])", x.left.value)
+                    specs = [s_ for s_ in specs if s_ != "%"]
+                    for k, a in enumerate(argl):
+                        if is_count(a, i):
+                            hits.append(specs[k] if k < len(specs) and specs[k] not in "sra" else None)
+                for spec in hits:
+                    n_fmt += 1
+                    chk.expect(not (none_count and spec), "R-C16-6", "run_sim does not apply a format spec to the iteration count, which is None for scipy solvers", loc(rs, x),
+                               "_solver_helper returns (status, message, None) for fsolve / newton_krylov / ...; '{:%s}'.format(None) raises TypeError, so a step rescued by a scipy "
+                               "(backup) solver crashes the run instead of being reported" % (spec or ""), expected="str(<count>)", found=norm(x))
+    if not n_fmt:
+        chk.ok("R-C16-6", "run_sim does not apply a format spec to the iteration count, which is None for scipy solvers", loc(rs), "the bare count is not formatted anywhere")
 
-    def classify(fn):
+    # (b) the report timestep is classified by one predicate in the set-up and in the loop
+    def classify(fn, f):
         out = []
-        for n in walk(fn):
-            if isinstance(n, ast.If) and "_report_timestep" in unparse(n.test):
-                for c in ast.walk(n.test):
-                    if isinstance(c, ast.Call) and unparse(c.func) == "isinstance" and "_report_timestep" in unparse(c.args[0]):
-                        types = sorted(unparse(e) for e in (c.args[1].elts if isinstance(c.args[1], ast.Tuple) else [c.args[1]]))
-                        out.append(tuple(types))
+        for i in sorted(f.G.nodes):
+            for c in f.own_calls(i):
+                if isinstance(c.func, ast.Name) and c.func.id == "isinstance" and len(c.args) == 2 and dotted(f.resolve(c.args[0], i)) in rep_attrs:
+                    t2 = f.resolve(c.args[1], i)
+                    out.append(tuple(sorted(unparse(e) for e in (t2.elts if isinstance(t2, ast.Tuple) else [t2]))))
         return out
-    cs, cl = classify(so), classify(rsf)
+    cs, cl = classify(so, Flow(so)), classify(rs, fl)
     if not cs or not cl:
         raise ExtractError("classification of report_timestep not found (setup %s, loop %s)" % (cs, cl))
-    chk.expect(set(cs) == set(cl), "R-C16-6", "report_timestep is classified (number vs 'ALL') by the same type test in _setup_sim_options and in the simulation loop", loc(rsf),
+    chk.expect(set(cs) == set(cl), "R-C16-6", "report_timestep is classified (number vs 'ALL') by the same type test in _setup_sim_options and in the simulation loop", loc(rs),
                "a value the set-up accepts as a number (e.g. numpy.int64) but the loop does not recognise falls into the string branch and raises AttributeError after the first step",
                expected=sorted(set(cs)), found=sorted(set(cl)))
     # (c) NewtonSolver.solve: a loop variable used after its loop is bound even when the loop does not run (MAXITER = 0)
-    nsf = repo.func(SOLV, "NewtonSolver.solve")
-    chk.fn(nsf)
-    for lp in [n for n in nsf.body if isinstance(n, ast.For) and isinstance(n.target, ast.Name)]:
-        v = lp.target.id
-        end = max(x.lineno for x in ast.walk(lp) if hasattr(x, "lineno"))
-        later = [x for x in walk(nsf) if isinstance(x, ast.Name) and x.id == v and isinstance(x.ctx, ast.Load) and x.lineno > end]
-        if not later:
+    n_lv = 0
+    for lp, h in sorted(gs.loop_heads.items(), key=lambda kv: kv[1]):
+        if not isinstance(lp, ast.For) or any(isinstance(p, (ast.For, ast.While)) for p in _ancestors(lp, sv)):
             continue
-        pre = [a for a in nsf.body if isinstance(a, ast.Assign) and a.lineno < lp.lineno and any(isinstance(t, ast.Name) and t.id == v for t in a.targets)]
-        chk.expect(bool(pre), "R-C16-6", "NewtonSolver.solve: `%s` is defined before its loop (it is used after the loop, which may not run at all)" % v, loc(nsf, later[0]),
-                   "with MAXITER = 0 the loop body never runs and the fall-through return raises UnboundLocalError instead of reporting the failure", found="used at line %d" % later[0].lineno)
+        body = {id(x) for x in ast.walk(lp)}
+        for v in _target_names(lp.target):
+            for i in sorted(fs.G.nodes):
+                if i == h or i not in gs.reachable(h):
+                    continue
+                uses = [x for e in fs.own_exprs(i) for x in walk(e) if isinstance(x, ast.Name) and x.id == v and isinstance(x.ctx, ast.Load) and id(x) not in body]
+                if not uses:
+                    continue
+                n_lv += 1
+                unb_ = [dn for dn, val in fs.reaching(v, i) if val is _UNBOUND]
+                chk.expect(not unb_, "R-C16-6", "NewtonSolver.solve: `%s` is defined before its loop (it is used after the loop, which may not run at all)" % v, loc(sv, uses[0]),
+                           "with MAXITER = 0 the loop body never runs and the fall-through return raises UnboundLocalError instead of reporting the failure", found="used at line %d" % fs.line(i))
     chk.floor("R-C16-6", 3)
+
+
+def _ancestors(n, stop):
+    out = []
+    p = getattr(n, "_parent", None)
+    while p is not None and p is not stop:
+        out.append(p)
+        p = getattr(p, "_parent", None)
+    return out
+
+
+def _timestep_at_least_one(to):
+    """TimeOptions.__setattr__('hydraulic_timestep', v) stores an integer >= 1 for every number v (evaluated on a finite set of v)."""
+    if len(to.args.args) < 3:
+        raise AnchorError("TimeOptions.__setattr__: unexpected signature")
+    pn, pv = to.args.args[1].arg, to.args.args[2].arg
+    ex = SymExec()
+    outs = [o for o in ex.run(to, env={pn: "hydraulic_timestep"}) if o.raised is None]
+    if not outs:
+        return False
+    intf = sp.Function("int")
+    for o in outs:
+        st = [e for e in o.events if e[0] == "store" and "hydraulic_timestep" in e[1]]
+        if not st:
+            return False
+        v = st[-1][2]
+        try:
+            v = ex.S(v)
+        except ExtractError:
+            return False
+        syms = [s for s in v.free_symbols]
+        if [str(s) for s in syms] not in ([], [pv]):
+            return False
+        for probe in (sp.Rational(-7, 2), 0, sp.Rational(2, 5), 1, sp.Rational(79, 10), 3600):
+            val = v.subs({s: probe for s in syms}).replace(intf, lambda a: sp.Integer(int(a)))
+            try:
+                if not (val.is_number and val == sp.floor(val) and val >= 1):
+                    return False
+            except TypeError:
+                return False
+    return True
 
 
 WITNESSES = [
